@@ -27,6 +27,11 @@ def gen_cases(rng, tier):
         w = rng.choice([1, 100, 8190, 8191, 8192, 8193, 16381, 16382, 16383, 24573, 24574, 40000, rng.randint(1, 70000)])
         h = rng.choice([1, 7, 8191, 8192, 16382, 16383, rng.randint(1, 70000)])
         cases.append(("tiles", [w, h]))
+    # draw calls with a mask that matches the pixmap in one dimension only (documented: nothing happens; in particular no
+    # read past the mask's rows): mask_ops op 6, masks 9 columns or 9 rows short, non-tiled and tiled targets
+    for w_, h_ in [(40, 30), (17, 45), (200, 12), (8200, 4)]:
+        for sd in range(4):
+            cases.append(("mask_ops", [6, w_, h_, sd]))
     # pixmaps with a dimension of 32768 and more: rectangles, rect paths and strokes reaching past coordinate 32767
     for i in range(12 if tier == "quick" else 120):
         wide = i % 2 == 0
